@@ -461,10 +461,13 @@ Section Walk.
     ST L s (f (g (frames s))) -> ST L s (bind (gets g) f).
   Proof. apply HT_gets_bind. Qed.
 
+  Lemma ST_error_nil s e : ST [] s (add_error e).
+  Proof. apply HT_error. Qed.
+
   Ltac st_go :=
     repeat first
       [ apply ST_ret
-      | apply HT_panic | apply HT_oof | apply HT_error
+      | apply HT_panic | apply HT_oof | apply ST_error_nil
       | match goal with H : _ |- HT _ _ _ _ => solve [apply H] end
       | apply ST_emit; repeat split
       | apply ST_emit_kid; repeat split
@@ -897,19 +900,18 @@ Section Walk.
       eapply HT_bind; [apply HT_check_type_exists|]. intros ok s3 W3 G3 H3.
       eapply HT_bind; [apply HT_when_error|]. intros u4 s4 W4 G4 H4.
       apply HT_gets_bind.
-      eapply HT_bind with (Q1 := fun _ s5 => exists i, In er (operands_of i) /\ ext_of i = [] /\
+      eapply HT_bind with (Q1 := fun _ s5 => exists i, operands_of i = [er] /\ ext_of i = [] /\
                                        use_regs i = eres_reg er /\ EmitP i s4 s5).
       { destruct (head_mret (frames s4));
           (eapply HT_conseq; [apply HT_emit; reflexivity|]; intros u5 s5 _ _ _ H5;
-           eexists; split; [|split; [|split; [|exact H5]]]; [left|..]; reflexivity). }
+           eexists; split; [|split; [|split; [|exact H5]]]; reflexivity). }
       intros u5 s5 W5 G5 H5. apply HT_ret. intros F. unwrap. fin_all.
       destruct H1 as (er0 & c & Hr & C1 & ES1). inversion Hr; subst er0.
       destruct H2 as [_ ->]. destruct H3 as (_ & -> & _). destruct H4 as [_ ->].
       destruct H5 as (i & Hop & Hx & Hu & h5 & c5 & _).
       eexists. split; [rewrite c5, C1, <- app_assoc; reflexivity|].
       rewrite h5. eapply ES_emit; [exact ES1 | exact Hx | exact Hu|].
-      destruct i; cbn [operands_of] in *; try contradiction;
-        destruct Hop as [<-|[]]; (constructor; [left; reflexivity | constructor]).
+      rewrite Hop. constructor; [left; reflexivity | constructor].
     Qed.
 
     Lemma S_fn_stmt returned st s : ST (stmt_exts st) s (fn_stmt G fuel RT returned st).
@@ -958,3 +960,163 @@ Section Walk.
     eapply ST_conv; [st_go | unfold fn_exts; fold (stmts_exts (fn_body f)); st_norm].
   Qed.
 End Walk.
+
+(** ** One function body *)
+Lemma WF_init e : WF (BSt [empty_block] e).
+Proof. split; [discriminate | apply Inv_reg_init]. Qed.
+
+Lemma function_body_exts G f a s :
+  function_body G [] f = Ok a s -> errs s = [] ->
+  ExtSpec 0 (hr s) (Ctx s) (fn_exts f) [] [].
+Proof.
+  intros H He. unfold function_body in H.
+  destruct (S_function_body_m (Ctx s) G f (BSt [empty_block] []) (WF_init []) a s H)
+    as (_ & _ & HQ).
+  destruct HQ as (c & C & ES).
+  - split; [exact He|]. exists []. rewrite app_nil_r. reflexivity.
+  - change (Ctx (BSt [empty_block] [])) with (@nil instr) in C. cbn [app] in C. rewrite C.
+    exact ES.
+Qed.
+
+Lemma function_body_grow G errs0 f a s :
+  function_body G errs0 f = Ok a s -> exists e, errs s = errs0 ++ e.
+Proof.
+  intro H. unfold function_body in H.
+  destruct (S_function_body_m [] G f (BSt [empty_block] errs0) (WF_init errs0) a s H)
+    as (_ & (c & e & _ & E & _) & _).
+  exists e. exact E.
+Qed.
+
+Lemma chk_fn_of_spec f root h :
+  ExtSpec 0 h (b_ctx root) (fn_exts f) [] [] ->
+  chk_order_fn f root = true /\ chk_types_fn f root = true.
+Proof.
+  intros [le tg xi ui pi ei on ty]. split.
+  - unfold chk_order_fn. rewrite tg. apply list_N_eqb_refl.
+  - unfold chk_types_fn. apply Bool.andb_true_iff. split.
+    + destruct (ty (fn_exts f) [] 0 (at_off_self _)) as [S _]; [intros r j []|]. exact S.
+    + unfold used_once. apply forallb_forall. intros tr Hin. specialize (on tr Hin).
+      rewrite app_nil_r in on. unfold uses in on. rewrite on. reflexivity.
+Qed.
+
+(** ** The driver *)
+Lemma all_fns_snoc chk : forall fs roots f r,
+  all_fns chk fs roots = true -> chk f r = true -> all_fns chk (fs ++ [f]) (roots ++ [r]) = true.
+Proof.
+  induction fs as [|f0 fs IH]; intros [|r0 roots] f r H Hc; cbn in *; try discriminate.
+  - rewrite Hc. reflexivity.
+  - apply Bool.andb_true_iff in H as [H1 H2]. rewrite H1. cbn. apply IH; assumption.
+Qed.
+
+Lemma bodies_C19 G : forall fs fs0 errs0 roots errs1 roots1,
+  bodies G errs0 roots fs = inr (errs1, roots1) -> errs1 = [] ->
+  all_fns chk_order_fn fs0 roots = true -> all_fns chk_types_fn fs0 roots = true ->
+  errs0 = [] /\
+  all_fns chk_order_fn (fs0 ++ fs) roots1 = true /\ all_fns chk_types_fn (fs0 ++ fs) roots1 = true.
+Proof.
+  induction fs as [|f fs IH]; intros fs0 errs0 roots errs1 roots1 H He Ho Ht; cbn [bodies] in H.
+  - inversion H; subst. rewrite app_nil_r. repeat split; assumption.
+  - destruct (function_body G errs0 f) as [a s| |] eqn:E; try discriminate.
+    destruct (frames s) as [|root [|]] eqn:Ef; try discriminate.
+    destruct (function_body_grow _ _ _ _ _ E) as [e1 E1].
+    assert (Hroot : errs s = [] -> errs0 = [] ->
+                    chk_order_fn f root = true /\ chk_types_fn f root = true).
+    { intros Hs H0. subst errs0. pose proof (function_body_exts _ _ _ _ E Hs) as ES.
+      unfold Ctx in ES. rewrite Ef in ES. cbn in ES. eapply chk_fn_of_spec. exact ES. }
+    assert (Hd : errs s = [] \/ errs s <> []) by (destruct (errs s); [left; reflexivity | right; discriminate]).
+    destruct Hd as [Hs|Hs].
+    + assert (H0 : errs0 = []) by (rewrite E1 in Hs; apply app_eq_nil in Hs; apply Hs).
+      destruct (Hroot Hs H0) as [Co Ct].
+      destruct (IH (fs0 ++ [f]) (errs s) (roots ++ [root]) errs1 roots1 H He) as (_ & Ao & At).
+      * apply all_fns_snoc; assumption.
+      * apply all_fns_snoc; assumption.
+      * split; [exact H0|]. rewrite <- !app_assoc in Ao, At. split; assumption.
+    + exfalso. (* errors only grow *)
+      clear -H He Hs. revert H. generalize (roots ++ [root]). revert Hs. generalize (errs s).
+      induction fs as [|f' fs IH']; intros e0 Hs r0 H; cbn [bodies] in H.
+      * inversion H; subst. contradiction.
+      * destruct (function_body G e0 f') as [a' s'| |] eqn:E'; try discriminate.
+        destruct (frames s') as [|root' [|]]; try discriminate.
+        destruct (function_body_grow _ _ _ _ _ E') as [e2 E2].
+        eapply (IH' (errs s')); [|exact H]. rewrite E2. intro Hn. apply app_eq_nil in Hn.
+        apply Hs, Hn.
+Qed.
+
+(** ** Blocks: from the subsequence property of C18 *)
+Lemma ext_eqb_eq a b : ext_eqb a b = true <-> a = b.
+Proof.
+  destruct a as [a1 a2], b as [b1 b2]. unfold ext_eqb. cbn.
+  rewrite Bool.andb_true_iff, !N.eqb_eq. split; [intros [-> ->]; reflexivity|].
+  intro H; inversion H; split; reflexivity.
+Qed.
+
+Lemma remove_one_in x : forall b, In x b ->
+  exists b', remove_one x b = Some b' /\ Permutation b (x :: b').
+Proof.
+  induction b as [|y b IH]; intro Hin; [destruct Hin|]. cbn [remove_one].
+  destruct (ext_eqb x y) eqn:E.
+  - apply ext_eqb_eq in E. subst y. exists b. split; [reflexivity | apply Permutation_refl].
+  - destruct Hin as [->|Hin].
+    + assert (ext_eqb x x = true) by (apply ext_eqb_eq; reflexivity). congruence.
+    + destruct (IH Hin) as (r & Hr & Hp). rewrite Hr. exists (y :: r). split; [reflexivity|].
+      eapply Permutation_trans; [apply perm_skip, Hp | apply perm_swap].
+Qed.
+
+Lemma sub_multiset_perm : forall a b rest, Permutation (a ++ rest) b -> sub_multiset a b = true.
+Proof.
+  induction a as [|x a IH]; intros b rest Hp; [reflexivity|]. cbn [sub_multiset].
+  assert (Hin : In x b) by (eapply Permutation_in; [exact Hp | left; reflexivity]).
+  destruct (remove_one_in x b Hin) as (b' & Hr & Hb). rewrite Hr.
+  apply (IH b' rest). apply (Permutation_cons_inv (a := x)).
+  eapply Permutation_trans; [exact Hp | exact Hb].
+Qed.
+
+Lemma subseq_perm {A} (a b : list A) : subseq a b -> exists rest, Permutation (a ++ rest) b.
+Proof.
+  induction 1 as [|y a b _ [rest IH]|x a b _ [rest IH]].
+  - exists []. constructor.
+  - exists (y :: rest). eapply Permutation_trans; [apply Permutation_sym, Permutation_middle|].
+    apply perm_skip, IH.
+  - exists rest. cbn. apply perm_skip, IH.
+Qed.
+
+Lemma subseq_exts a b : subseq a b -> subseq (stack_exts a) (stack_exts b).
+Proof.
+  induction 1 as [|y a b _ IH|x a b _ IH]; [constructor| |].
+  - change (stack_exts (y :: b)) with (ext_of y ++ stack_exts b).
+    destruct (ext_of y) as [|e l] eqn:E; [exact IH|].
+    destruct y; cbn in E; try discriminate. inversion E; subst. cbn [app]. constructor. exact IH.
+  - change (stack_exts (x :: b)) with (ext_of x ++ stack_exts b).
+    change (stack_exts (x :: a)) with (ext_of x ++ stack_exts a).
+    destruct x; cbn [ext_of app]; try exact IH. apply ss_take. exact IH.
+Qed.
+
+Lemma chk_blocks_of_tree_sub : forall b, tree_sub b -> chk_blocks_tree b = true.
+Proof.
+  induction b as [b IH] using block_ind'. intro Ht. apply tree_sub_unfold in Ht.
+  destruct b as [v i l r m ctx kids]. cbn [chk_blocks_tree b_kids b_ctx] in *.
+  induction kids as [|k ks IHk]; [reflexivity|].
+  inversion IH as [|? ? Hk Hks]; subst. inversion Ht as [|? ? [Hs Htk] Htks]; subst.
+  rewrite (IHk Hks Htks), (Hk Htk), Bool.andb_true_r, Bool.andb_true_r.
+  destruct (subseq_perm _ _ (subseq_exts _ _ Hs)) as [rest Hp].
+  eapply sub_multiset_perm. exact Hp.
+Qed.
+
+(** ** The theorem *)
+Theorem run_ext_once_in_place : forall p out,
+  run p = ROk out -> o_errors out = [] -> chk_C19 p out = true.
+Proof.
+  intros p out H Hacc. pose proof (run_tree_subsequence p out H) as Htree.
+  unfold run in H.
+  destruct (bodies (gs_globals (declarations p)) (gs_errs (declarations p)) [] (functions_of p))
+    as [r|[errors roots]] eqn:E; [exfalso; eapply bodies_not_ok; subst r; exact E|].
+  inversion H; subst; clear H. cbn [o_errors o_fns] in *. subst errors.
+  destruct (bodies_C19 _ _ [] _ _ _ _ E eq_refl eq_refl eq_refl) as (_ & Ho & Ht).
+  cbn [app] in Ho, Ht.
+  unfold chk_C19, chk_C19_order, chk_C19_types, chk_C19_blocks, accepted_only.
+  cbn [o_errors o_fns]. rewrite Ho, Ht. cbn [andb].
+  apply forallb_forall. intros b Hb. apply chk_blocks_of_tree_sub.
+  rewrite Forall_forall in Htree. apply Htree, Hb.
+Qed.
+
+Print Assumptions run_ext_once_in_place.
